@@ -28,3 +28,37 @@ package logger
 //@ lemma SummaryTable_Less_total C08: forall t SummaryTable, i int, j int ::
 //@     0 <= i && i < len(t) && 0 <= j && j < len(t) && !t.Less(i, j) && !t.Less(j, i) ==>
 //@     t[i].IsSourceMap == t[j].IsSourceMap && t[i].Bytes == t[j].Bytes && t[i].Dir == t[j].Dir && t[i].Base == t[j].Base
+
+// ----------------------------------------------------------------------------------------------
+// C16 (zero-annotation safety sweep): for ALL arguments (no precondition), no index, slice, nil-dereference,
+// division or conversion in the body of these functions can panic. Loop counters that start at a constant and are
+// only incremented get their lower bound as an automatic invariant (`opt auto-counters`); nothing else is assumed.
+// Calls are replaced by contracts, inlined, or havocked: a panic inside a callee without a contract is not covered.
+//@ func estimateWidthInTerminal
+//@   arith int
+//@   nooverflow off
+//@   safety
+//@   opt auto-counters 1
+//@   prop C16
+
+//@ func marginWithLineText
+//@   arith int
+//@   nooverflow off
+//@   safety
+//@   opt auto-counters 1
+//@   prop C16
+
+//@ func emptyMarginText
+//@   arith int
+//@   nooverflow off
+//@   safety
+//@   opt auto-counters 1
+//@   prop C16
+
+//@ func plural
+//@   arith int
+//@   nooverflow off
+//@   safety
+//@   opt auto-counters 1
+//@   prop C16
+
